@@ -148,7 +148,7 @@ def tlc(scratch, module, cfg, env=None, workers=1, timeout=600, heap="3g", extra
     else:
         jvm = ["-XX:+UseParallelGC", "-XX:ParallelGCThreads=%d" % gc]
     cmd = ["timeout", str(timeout), "java"] + jvm + ["-Xmx" + heap,
-           "-Xss64m", "-cp", JAR, "tlc2.TLC", "-workers", str(workers), "-metadir", md,
+           "-Xss64m", "-cp", JAR, "tlc2.TLC", "-workers", str(workers), "-noGenerateSpecTE", "-metadir", md,
            "-config", os.path.join(SPEC, cfg)]
     if simulate:
         cmd += ["-simulate", simulate]
